@@ -21,7 +21,23 @@ fn variants(t: &mut Tape, b: &Lzma2Built, full: bool) -> Vec<(Vec<u8>, &'static 
             (0..n).map(|_| all[t.below(all.len() as u64) as usize]).collect()
         }
     };
+    // streams of very many chunks: first, last and four others stand for the rest
+    let nc = b.chunks.len();
+    let pick: Vec<usize> = if nc > 12 {
+        let mut x = vec![0, nc - 1];
+        for _ in 0..4 {
+            x.push(1 + t.below(nc as u64 - 2) as usize);
+        }
+        x.sort();
+        x.dedup();
+        x
+    } else {
+        (0..nc).collect()
+    };
     for (ci, c) in b.chunks.iter().enumerate() {
+        if !pick.contains(&ci) {
+            continue;
+        }
         // control byte := every value 0x03..0x7F
         for val in sample(t, (0x03u32..=0x7F).collect(), 6) {
             let mut m = base.clone();
@@ -245,7 +261,7 @@ impl Property for C17 {
     fn runs(&self, tier: Tier) -> u64 {
         match tier {
             Tier::Quick => 1_500,
-            Tier::Thorough => 400_000,
+            Tier::Thorough => 250_000,
         }
     }
     fn assumptions(&self) -> Vec<&'static str> {
@@ -273,7 +289,8 @@ impl Property for C17 {
         if b.chunks.is_empty() {
             return Vec::new();
         }
-        let full = ctx.tier == Tier::Thorough;
+        // the size-boundary bases decode 64-200 KB per case: sampled values there
+        let full = ctx.tier == Tier::Thorough && !boundary;
         let ep = [EP_LZMA2, EP_LZMA2, EP_RAW_LZMA2, EP_XZ][t.below(4) as usize];
         // the unmodified sequence must be accepted (sanity of the generator and
         // of the framing code on a well-formed stream)
